@@ -169,6 +169,17 @@ class Project:
         elif kind in ("edit", "create", "uwrite"):
             self._write(op[1], op[2])
             m.user_write(op[1], op[2])
+        elif kind == "uold":
+            # the user puts an OLDER file of the same size in place (restored backup, cp -p, mv, tar x): new inode,
+            # mtime earlier than anything seen so far
+            path = self.p / op[1]
+            tmp = path.with_name(path.name + ".rvold")
+            tmp.write_text(op[2])
+            self.clock += 1
+            t = T0 - 100000 - self.clock
+            os.utime(tmp, (t, t))
+            os.replace(tmp, path)
+            m.user_write(op[1], op[2])
         elif kind == "ureplace":
             self._write(op[1], op[2], replace=True)
             m.user_write(op[1], op[2])
@@ -327,7 +338,7 @@ class Explorer:
         first = {}
         for history, key, viols, summ, dt in self.pool.map(_job, jobs, chunksize=2):
             hk = json.dumps(history)
-            ok = json.dumps([(s["rc"], s["ran"], s["listing"]) for s in summ])
+            ok = json.dumps([(s["rc"], sorted(s["ran"]) if s["ran"] else s["ran"], s["listing"]) for s in summ])   # order among siblings built out of band is unspecified (HashSet)
             if hk in first:
                 if first[hk] != (key, ok):
                     res["nondet"].append(history)
@@ -406,7 +417,7 @@ class Explorer:
                 res["histories"] += 1
                 res["transitions"] += len(history)
                 hk = json.dumps(history)
-                ok = json.dumps([(s["rc"], s["ran"], s["listing"]) for s in summ])
+                ok = json.dumps([(s["rc"], sorted(s["ran"]) if s["ran"] else s["ran"], s["listing"]) for s in summ])   # order among siblings built out of band is unspecified (HashSet)
                 if hk in keys_at:
                     if keys_at[hk] != (key, ok):
                         res["nondet"].append(history)
